@@ -56,7 +56,10 @@ def LENZ(path: str, enc: str = "utf-16-le") -> Lin:
 
 def PAD(modulus: int, length: Lin) -> t.List[Sig]:
     """Zero padding that aligns `length` up to a multiple of `modulus`."""
-    return [("pad", repr(mod(-length, modulus)))]
+    w = mod(-length, modulus)
+    if w.is_const():
+        return [("lit", "00" * w.const)]
+    return [("pad", repr(w))]
 
 
 def NESTED(path: str, cls: str) -> t.List[Sig]:
